@@ -7,6 +7,7 @@ earliest deadline when nothing is runnable.
 """
 import collections
 import hashlib
+import os
 import queue as _queue
 import random
 import sys
@@ -279,9 +280,18 @@ class Sched:
             if me is self.main:
                 # the driver also watches the baton: a task that keeps it for STUCK_S wall seconds is blocked inside a real
                 # (not substituted) blocking primitive - nothing the scheduler can schedule around; inconclusive, with the stack
+                t_wait = _time.monotonic()
                 while not me.gate.acquire(timeout=self.STUCK_S):
                     holder = self.current
                     if holder is me:
+                        continue
+                    # on an overloaded machine (load far above the core count) a runnable thread may simply not have been given
+                    # a core: the allowance grows with the load before the baton counts as stuck
+                    try:
+                        allowance = self.STUCK_S * max(1.0, os.getloadavg()[0] / (os.cpu_count() or 1))
+                    except OSError:
+                        allowance = self.STUCK_S
+                    if _time.monotonic() - t_wait < allowance:
                         continue
                     self.killing = True
                     self.current = me
